@@ -25,6 +25,7 @@ func treeWorldAO(r *Run, rng *Rng, w *treeWorld, maxLeaves int, fabIdx int64) {
 		bn  uint64
 	}
 	var committed []lf
+	var allLeaves []common.Hash
 	steps := 4 + rng.Intn(10)
 	for s := 0; s < steps && len(committed) < maxLeaves; s++ {
 		switch {
@@ -65,12 +66,28 @@ func treeWorldAO(r *Run, rng *Rng, w *treeWorld, maxLeaves int, fabIdx int64) {
 			var pend []lf
 			outcome := rng.Intn(100)
 			failed := false
+			faultAt := rng.Intn(k)
+			if rng.Chance(50) {
+				faultAt = 0 // the first AddLeaf of a transaction is the one that may have to rebuild the cache
+			}
 			for j := 0; j < k; j++ {
 				if next > 0xfffffffe { // the deposit contract holds at most 2^32-1 leaves (last index 2^32-2)
 					break
 				}
 				idx := next
 				leaf := rndHash(rng)
+				if rng.Chance(12) && len(allLeaves) > 0 {
+					leaf = allLeaves[rng.Intn(len(allLeaves))] // a value seen before (identical deposits / same leaf re-added after a reorg)
+					r.Count("branch:dup-leaf")
+				}
+				allLeaves = append(allLeaves, leaf)
+				if outcome >= 82 && outcome < 90 && j == faultAt {
+					// storage fault at a random statement of this AddLeaf (reads included), then rollback
+					w.exec(r, fmt.Sprintf("addF %d %d %d %d %s", rng.Intn(70), bn, j, idx, hx0(leaf)))
+					r.Count("branch:addF")
+					failed = true
+					break
+				}
 				if outcome >= 90 && j == k-1 {
 					// failing add: index gap, repeated index, or a zero leaf (root primary key collision)
 					switch rng.Intn(3) {
@@ -98,7 +115,7 @@ func treeWorldAO(r *Run, rng *Rng, w *treeWorld, maxLeaves int, fabIdx int64) {
 				pend = append(pend, lf{idx, leaf, bn})
 				next++
 			}
-			if failed || (outcome >= 70 && outcome < 90) {
+			if failed || (outcome >= 70 && outcome < 82) {
 				w.exec(r, "rollback")
 				r.Count("branch:rollback")
 				next -= uint64(len(pend))
@@ -167,10 +184,16 @@ func treeWorldUpd(r *Run, rng *Rng, w *treeWorld, nUpserts int) {
 			k := 1 + rng.Intn(3)
 			for j := 0; j < k; j++ {
 				pos := positions[rng.Intn(len(positions))]
+				if rng.Chance(15) {
+					w.exec(r, fmt.Sprintf("upsertF %d %d %d %d %s", rng.Intn(70), bn, j, pos, hx0(rndHash(rng))))
+					r.Count("branch:upsertF")
+					i++
+					break // the failed statement leaves partial writes in the transaction: the caller must roll back
+				}
 				w.exec(r, fmt.Sprintf("upsert %d %d %d %s", bn, j, pos, hx0(rndHash(rng))))
 				i++
 			}
-			if rng.Chance(20) {
+			if w.poisoned || rng.Chance(20) {
 				w.exec(r, "rollback")
 				r.Count("branch:upd-rollback")
 			} else {
